@@ -56,6 +56,8 @@ def models():
         "@group G2 using G1",
         "    ug3 = 3 * ub",
         "@end",
+        "@alias uc = calias = c_alias2",
+        "@alias ug3 = g3alias",
         "@system S1 using G2",
         "    uc",
         "    ug3 : ub",
@@ -105,7 +107,7 @@ def layout(lines, kind):
     return out
 
 
-PROBE_UNITS = ["ua", "a_", "alias_a", "ub", "un", "n_", "uc", "c_", "ud", "dalias", "ue", "uf", "f_", "uh", "h_", "halias", "ug1", "g1_", "ug2", "ug3", "kiloua", "ka_", "milliub", "milub", "microuc", "uc_", "kiloucs", "uo", "o_", "delta_uo", "ul", "l_"]
+PROBE_UNITS = ["ua", "a_", "alias_a", "ub", "un", "n_", "uc", "c_", "ud", "dalias", "ue", "uf", "f_", "uh", "h_", "halias", "ug1", "g1_", "ug2", "ug3", "kiloua", "ka_", "milliub", "milub", "microuc", "uc_", "kiloucs", "uo", "o_", "delta_uo", "ul", "l_", "calias", "c_alias2", "kilocalias", "kcalias", "millic_alias2s", "g3alias", "microg3alias"]
 
 
 def num(x):
@@ -542,9 +544,9 @@ MANIFEST = {
     "category": "exploration",
     "technique": "bounded exhaustive enumeration of definition texts (all permutations of the free lines x layouts x loading paths x numeric types) with an independent reader as absolute oracle and the canonical loading as differential oracle; catalogue of ill-formed texts",
     "text": "The bundled files are compared entry by entry with R1 (every spelling -> unit, symbol, aliases, converter kind and offset, every prefix spelling and value, transitive group and system membership, "
-    "context names/aliases/defaults/rule counts, defaults). Three generated 32-line definition files (prefixes, base/derived units in a DAG with rational factors, placeholder symbol, aliases, an offset and a log "
+    "context names/aliases/defaults/rule counts, defaults). Three generated 34-line definition files (prefixes, base/derived units in a DAG with rational factors, placeholder symbol, aliases on the unit line and on @alias lines — probed bare, prefixed by name and by symbol, and pluralised —, an offset and a log "
     "unit, two groups with 'using', a system with both rule forms, a context with defaults/rules/redefinition, defaults) are loaded in EVERY permutation of 5 (6 thorough) free unit/prefix lines, cycling through 4 "
-    "layouts x 7 loading paths (lines, file, @import split, cold and warm disk cache, one define() per statement) in float, Decimal and Fraction: a 60-key read-only observation vector must equal R1's reading "
+    "layouts x 7 loading paths (lines, file, @import split, cold and warm disk cache, one define() per statement) in float, Decimal and Fraction: a 67-key read-only observation vector must equal R1's reading "
     "(names, symbols, dimensionality, exact factors, roots, memberships) and the canonical loading's vector (conversions, system base units, context conversions, listings). 36 ill-formed shapes x 2 positions x 2 "
     "types must raise at load or first use.",
     "note": "Trusted: R1. System base-unit choice and context arithmetic are only compared across loadings here (absolute semantics: C14, C11). define()-after-construction listings are C13's subject and are not "
